@@ -405,6 +405,7 @@ static void fail(const std::string &key, const std::string &replay)
 struct Oracle {
     QSet<QString> approved;   // users for which a checker-approved credential was presented on this connection
     bool sawSuccess = false;  // the server has told the attacker that authentication succeeded
+    bool overlap = false;     // an element was sent while a checker reply for this connection was still outstanding
     const QMap<QString, QString> &table;
     explicit Oracle(const QMap<QString, QString> &t) : table(t) { }
 
@@ -430,8 +431,9 @@ struct Oracle {
         const bool before = sawSuccess;   // authenticated before this element was processed?
         for (auto &e : o.a) if (e.startsWith("succ")) sawSuccess = true;
         // (1) whoever the server takes the connection for must have been approved by the checker
-        if (!o.jid.isEmpty() && !jidApproved(o.jid)) return o.jid.startsWith("/") ? "C16:preauth-bind" : "C16:reply-confusion";
-        for (auto &e : o.auth) if (!jidApproved(e.mid(5, e.size() - 6))) return "C16:reply-confusion";
+        const char *unapproved = overlap ? "C16:reply-confusion" : "C16:auth-not-approved";
+        if (!o.jid.isEmpty() && !jidApproved(o.jid)) return o.jid.startsWith("/") ? "C16:preauth-bind" : unapproved;
+        for (auto &e : o.auth) if (!jidApproved(e.mid(5, e.size() - 6))) return unapproved;
         // (2) nothing bound, routed or answered before authentication
         const bool authedNow = before || (w[0] == "deliver" || w[0].startsWith("resp")) && sawSuccess;   // SASL2 may bind within the success step
         for (auto &e : o.sig) if (e.startsWith("conn(") && !authedNow) return "C16:preauth-bind";
@@ -441,7 +443,6 @@ struct Oracle {
             if ((e.startsWith("iq(") || e.startsWith("message(") || e.startsWith("presence(")) && !authedNow) return "C16:preauth-stanza-answered";
         }
         if ((!o.routed.isEmpty() || !o.v.isEmpty()) && !before) {
-            for (auto &e : o.v) if (e.startsWith("err(conflict)")) return "C16:reply-confusion";
             return "C16:preauth-stanza-routed";
         }
         // (3) whatever reaches the victim from this socket carries the attacker's own, approved address
@@ -513,7 +514,7 @@ static size_t runScript(const Script &sc)
     for (size_t i = 0; i < sc.size(); i++) {
         QStringList w = wordsOf(sc[i]);
         const bool open = f.attacker->open();
-        if (g.wouldBeUb(w, f.checker, open)) {
+        if (g.wouldBeUb(w, f.checker, open) && !getenv("C16_RUN_UB_PATHS")) {   // (the env switch is for manual probing only)
             corr(sc[i], "ub");
             stat("ub_paths_not_executed");
             if (deadAt == sc.size()) deadAt = i;
@@ -522,6 +523,7 @@ static size_t runScript(const Script &sc)
         g.sent(w, open);
         const bool vOpen = f.victim->open();
         if (open) orc.noteInput(w);
+        if (open && w[0] != "deliver") { f.checker.prune(); if (!f.checker.pending.isEmpty()) orc.overlap = true; }
         Obs o = applyOp(f, w);
         g.received(o);
         corr(sc[i], o.str());
